@@ -682,7 +682,7 @@ func (it *Interp) exec(fr *frame, s Stmt, top bool) ctl {
 		if i.I < 0 {
 			it.undef("negative index")
 		}
-		if i.I > 5000 {
+		if i.I > 300 {
 			it.undef("index too large")
 		}
 		if int(i.I) >= len(obj.Elems) {
